@@ -120,6 +120,12 @@ class GraphCheck:
         "CPython 3.12.1 of /venv executes the library faithfully",
     ]
     SHARD_TIMEOUT = {"quick": 900, "thorough": 7200}
+    # a product exploration that hits its state cap (2 M states, graphs of ~90
+    # blocks with many independent control variables) leaves that ONE case
+    # undecided; it is reported in the evidence (inconclusive_cases /
+    # inconclusive_samples) and does not make the run inconclusive as long as
+    # such cases stay below 1 in 10 000
+    INCONCLUSIVE_TOLERANCE = 1e-4
 
     def __init__(self, prop, oracles, rule, nontrivial, deciding, level="exploration",
                  exh_quick_full=False, profile=("stage", "table", "step"), scale=1.0,
